@@ -274,7 +274,22 @@ def check_capacity(A, rep):
                         if any(is_enter(g.nodes[i], "_flush_buffer") and g.nodes[i]["args"].get("force") == Val("const", True) for i in r):
                             ok = True
             stores = [n for n in live(g) if n.kind == "cs_write" and n["name"] == "_BUFFER_CAPACITY" and n["op"] == "rebind" and n["value"].kind == "param"]
+            # who-may-write: the capacity is changed only by set_buffer_capacity (which enforces it) and at class creation
+            import ast as _ast
+            stray = []
+            for fn in A.model.functions:
+                if fn.name in ("set_buffer_capacity", "__init_subclass__"):
+                    continue
+                for x in _ast.walk(fn.node):
+                    tgts = x.targets if isinstance(x, _ast.Assign) else [x.target] if isinstance(x, (_ast.AugAssign, _ast.AnnAssign)) else []
+                    for t_ in tgts:
+                        if isinstance(t_, _ast.Attribute) and t_.attr == "_BUFFER_CAPACITY":
+                            stray.append((fn, x))
+            for fn, x in stray:
+                rep.fail("C15.b", norm_key("C15.b", fn.qualname, "direct-capacity-store"),
+                         f"{fn.qualname}: `{_ast.unparse(x)[:80]}` changes the buffer capacity without going through set_buffer_capacity, so a capacity below the current buffer size is not enforced (no flush): the size stays above the capacity until some later operation happens to check it",
+                         [f"{fn.module.path}:{x.lineno}"], fn.qualname)
             if ok and stores:
-                rep.ok("C15.b", f"C15.b [{kind}] set_buffer_capacity stores the new capacity and flushes when it is below the current size")
+                rep.ok("C15.b", f"C15.b [{kind}] set_buffer_capacity stores the new capacity and flushes when it is below the current size; nothing else writes the capacity")
             else:
                 rep.fail("C15.b", norm_key("C15.b", kind, v.func.qualname), f"{v.func.qualname} no longer stores the capacity or no longer flushes when the new capacity is below the current size", [], g.label)
